@@ -648,6 +648,15 @@ type raceRep struct {
 }
 
 var raceHangs int
+var harnessErrors int
+var nondet []string
+
+func firstLineOf(s string) string {
+	if i := strings.IndexByte(s, '\n'); i >= 0 {
+		return s[:i]
+	}
+	return s
+}
 
 func genRule(prop string) string {
 	if prop == "C13" {
@@ -661,6 +670,10 @@ func genRule(prop string) string {
 func scMatches(sc *Scenario, prop string) bool {
 	if sc.Prop == prop {
 		return true
+	}
+	if prop == "C06" {
+		// "all instants at which a command probes the key relative to the deadline": the expired-key pairs
+		return sc.Gen && strings.HasPrefix(sc.ID, "pair:expired:")
 	}
 	return prop == "C09" && sc.Gen && (strings.HasPrefix(sc.ID, "pair:list:") || strings.HasPrefix(sc.ID, "pair:blocking:"))
 }
@@ -842,6 +855,13 @@ func main() {
 		var t task
 		json.Unmarshal(tb, &t)
 		if crash != nil {
+			if strings.Contains(crash.Detail, "explorer: replay diverged") {
+				// the same choice sequence led to a different set of enabled threads: nondeterminism the
+				// harness does not own.  A defect of the machinery (exit 2), never a violation.
+				fmt.Fprintf(os.Stderr, "HARNESS-ERROR: scenario %s: %s\n", t.Scenario, firstLineOf(crash.Detail))
+				harnessErrors++
+				return nil
+			}
 			kind := "worker-" + crash.Kind
 			rep.Add(&ev.Violation{Engine: "concmc", Kind: kind, Cmd: t.Scenario + t.Mode, Shape: t.Scenario, Detail: fmt.Sprintf("worker %s in %s %s: %s", crash.Kind, t.Mode, t.Scenario, crash.Detail),
 				Replay: map[string]interface{}{"engine": "concmc", "prop": prop, "scenario": t.Scenario}})
@@ -879,6 +899,10 @@ func main() {
 			}
 		}
 		for _, v := range r.Viol {
+			if v.Kind == "nondeterministic-harness" {
+				nondet = append(nondet, v.Detail)
+				continue
+			}
 			rep.Add(&ev.Violation{Engine: "concmc", Kind: v.Kind, Cmd: v.Cmd, Shape: v.Shape, Func: v.Func, Detail: v.Detail,
 				Replay: map[string]interface{}{"engine": "concmc", "prop": prop, "scenario": v.Shape, "schedule": v.Schedule, "mode": t.Mode}})
 		}
@@ -908,17 +932,28 @@ func main() {
 		"race_reports":          raceReports,
 		"race_pass_hangs":       raceHangs,
 	}
+	for _, v := range nondet {
+		fmt.Fprintln(os.Stderr, "HARNESS-ERROR:", v)
+	}
+	harnessErrors += len(nondet)
 	if sub := os.Getenv("VERIF_SUBREPORT"); sub != "" {
 		if err := rep.Export(sub, cov); err != nil {
 			fmt.Fprintln(os.Stderr, err)
 			os.Exit(2)
 		}
+		if harnessErrors > 0 {
+			os.Exit(2)
+		}
 		os.Exit(0)
 	}
-	os.Exit(rep.Finish(cov, []string{
+	rc := rep.Finish(cov, []string{
 		"interleavings inside a region without synchronisation operations are not explored; unsynchronised accesses are the business of the -race pass, which is dynamic and not exhaustive",
 		"the cooperative runtime models RWMutex writer preference with an explicit announce step",
-	}))
+	})
+	if harnessErrors > 0 {
+		os.Exit(2)
+	}
+	os.Exit(rc)
 }
 
 func replay(path string) int {
